@@ -5,7 +5,7 @@ from .. import adevhist, ndevhist, core, machist, macstage, lw
 ID = "C11"
 THEOREMS = ["C11_join_request", "C11_only_authentic_accept_joins", "C11_no_join_accept", "C11_class_c_before_join",
             "C11_authentic_accept_joins", "C11_session_of_network_accept", "C11_cflist", "C11_region_wf_initial", "C11_region_wf_preserved",
-            "C11_async_join_needs_authentic_accept", "C11_nb_join_needs_authentic_accept"]
+            "C11_async_join_needs_authentic_accept", "C11_nb_join_needs_authentic_accept", "C11_join_premises_met"]
 KINDS = ["JoinRequest", "JoinAccept", "joined", "uplink MIC", "device address", "counter"]
 # regional facts written from RP002, independent of the implementation's tables
 BAND = {0: (915000000, 928000000), 1: (915000000, 928000000), 2: (915000000, 928000000), 3: (917000000, 920000000),
